@@ -45,8 +45,8 @@ PROPERTIES = {
 }
 
 
-def write_programs(scratch, seed, count):
-    progs = genprogs.gen_batch(seed, count)
+def write_programs(scratch, seed, count, progs=None):
+    progs = progs if progs is not None else genprogs.gen_batch(seed, count)
     for d in ("in", "out", "exp"):
         os.makedirs(os.path.join(scratch, d), exist_ok=True)
     for name, text, db, _ in progs:
@@ -55,10 +55,10 @@ def write_programs(scratch, seed, count):
     return progs
 
 
-def prepare_batch(res, scratch, seed, count):
+def prepare_batch(res, scratch, seed, count, progs=None):
     """Generate programs, run the tree's compiler+generator, build the runner.
     Returns (runner exe or None, progs, gen status dict). Records violations in res."""
-    progs = write_programs(scratch, seed, count)
+    progs = write_programs(scratch, seed, count, progs)
     gen_exe, log = vlib.build_harness("gen", scratch)
     if gen_exe is None:
         res.violation("generator harness no longer builds against /repo (broken tie)", {"build_log": log[-3000:]}, no_input=True)
@@ -104,7 +104,7 @@ def prepare_batch(res, scratch, seed, count):
         # find the offending program(s): build each package alone
         culprit = None
         for name in good:
-            rc2, out2 = vlib.sh(["go", "vet", "-overlay", os.path.join(scratch, "overlay-genrun.json"), "./verifgen/" + name],
+            rc2, out2 = vlib.sh(["go", "build", "-overlay", os.path.join(scratch, "overlay-genrun.json"), "-o", os.devnull, "./verifgen/" + name],
                                 cwd=vlib.REPO, env=vlib.go_env(), timeout=300)
             if rc2 != 0:
                 culprit = (name, out2[-1500:])
